@@ -179,6 +179,19 @@ def handleSelector : Handler := fun op j =>
     | "compiled" => pure (Json.mkObj (resultJson (compiledMatch P fuel rec_ e)))
     | "reference" => pure (Json.mkObj (resultJson (refMatch P fuel rec_ e)))
     | _ => throw "bad engine"
+  | "sel_eval_many" => some do
+    -- one expression on several records, by each engine model: {"interpreted":[..],"compiled":[..],"reference":[..]}
+    let e ← parseExpr (← getObj j "expr")
+    let recs ← (← getArr j "records").toList.mapM parseVal
+    let fuel := (getNat j "fuel").toOption.getD 64
+    let run (eng : String) : Json := Json.arr (recs.map (fun r =>
+      let P := concretePrim r
+      let res := match eng with
+        | "compiled" => compiledMatch P fuel r e
+        | "reference" => refMatch P fuel r e
+        | _ => (interpMatch P fuel r e).2
+      Json.mkObj (resultJson res))).toArray
+    pure (Json.mkObj [("interpreted", run "interpreted"), ("compiled", run "compiled"), ("reference", run "reference")])
   | "sel_filter" => some do
     -- the reader loop: `if not selector or selector.match(obj): yield obj`; an exception ends the source
     let engine ← getStr j "engine"
